@@ -516,6 +516,14 @@ def unsafeImplOk (u : UnsafeImpl) : Bool :=
     | none => false
     | some ps => ps.all fun p => u.bounds.contains (p, u.traitKey)
 
+/-- Reviewed PHANTOM parameters: (definition path, index of the type parameter) of public types
+    whose parameter occurs in a field type without any value of it being owned or shared
+    (`PhantomData<fn() -> T>`-style markers), so that `Ty<NotSend>: Send` is legitimate. The
+    rustc probes of `probedrive --only c05` instantiate every OTHER in-field parameter of every
+    public type with a non-`Send` / non-`Sync` witness and require a rejection.
+    EMPTY: no public type of the crate has such a parameter. -/
+def phantomParams : List (String × Nat) := []
+
 def unreviewedUnsafeImpls : List UnsafeImpl :=
   unsafeImpls.filter fun u => !reviewedUnsafeImpls.contains (u.tyKey, u.traitKey)
 
